@@ -951,7 +951,7 @@ def split_curve(obj, param, **kwargs):
     # Find multiplicity of the knot and define how many times we need to add the knot
     ks = span_func(obj.degree, obj.knotvector, len(obj.ctrlpts), param) - obj.degree + 1
     s = helpers.find_multiplicity(param, obj.knotvector)
-    r = obj.degree - s
+    r = obj.degree - s  # negative at a knot of multiplicity degree + 1: the shape is already split there
 
     # Create backups of the original curve
     temp_obj = copy.deepcopy(obj)
@@ -964,14 +964,14 @@ def split_curve(obj, param, **kwargs):
     param = temp_obj.knotvector[knot_span - 1]  # use the knot value as stored in the knot vector
     curve1_kv = list(temp_obj.knotvector[0:knot_span])
     curve1_kv.append(param)
-    curve2_kv = list(temp_obj.knotvector[knot_span:])
+    curve2_kv = list(temp_obj.knotvector[knot_span - min(r, 0):])
     for _ in range(0, temp_obj.degree + 1):
         curve2_kv.insert(0, param)
 
     # Control points (use Pw if rational)
     cpts = temp_obj.ctrlptsw if obj.rational else temp_obj.ctrlpts
     curve1_ctrlpts = cpts[0:ks + r]
-    curve2_ctrlpts = cpts[ks + r - 1:]
+    curve2_ctrlpts = cpts[ks + max(r, 0) - 1:]
 
     # Create a new curve for the first half
     curve1 = temp_obj.__class__()
@@ -1133,13 +1133,13 @@ def split_surface_u(obj, param, **kwargs):
     param = temp_obj.knotvector_u[knot_span - 1]  # use the knot value as stored in the knot vector
     surf1_kv = list(temp_obj.knotvector_u[0:knot_span])
     surf1_kv.append(param)
-    surf2_kv = list(temp_obj.knotvector_u[knot_span:])
+    surf2_kv = list(temp_obj.knotvector_u[knot_span - min(r, 0):])
     for _ in range(0, temp_obj.degree_u + 1):
         surf2_kv.insert(0, param)
 
     # Control points
     surf1_ctrlpts = temp_obj.ctrlpts2d[0:ks + r]
-    surf2_ctrlpts = temp_obj.ctrlpts2d[ks + r - 1:]
+    surf2_ctrlpts = temp_obj.ctrlpts2d[ks + max(r, 0) - 1:]
 
     # Create a new surface for the first half
     surf1 = temp_obj.__class__()
@@ -1210,7 +1210,7 @@ def split_surface_v(obj, param, **kwargs):
     param = temp_obj.knotvector_v[knot_span - 1]  # use the knot value as stored in the knot vector
     surf1_kv = list(temp_obj.knotvector_v[0:knot_span])
     surf1_kv.append(param)
-    surf2_kv = list(temp_obj.knotvector_v[knot_span:])
+    surf2_kv = list(temp_obj.knotvector_v[knot_span - min(r, 0):])
     for _ in range(0, temp_obj.degree_v + 1):
         surf2_kv.insert(0, param)
 
@@ -1221,7 +1221,7 @@ def split_surface_v(obj, param, **kwargs):
         surf1_ctrlpts.append(temp)
     surf2_ctrlpts = []
     for v_row in temp_obj.ctrlpts2d:
-        temp = v_row[ks + r - 1:]
+        temp = v_row[ks + max(r, 0) - 1:]
         surf2_ctrlpts.append(temp)
 
     # Create a new surface for the first half
